@@ -6,7 +6,8 @@
   WritePiece starts), `step tid k` (thread `tid` performs its next atomic step; `k` is the number
   of bytes the next `Write` syscall of the `io.Copy` loop carries, so every chunking is covered),
   `reopen` (a new Torrent instance is created over the same store, NewTorrent/restorePieces; only
-  when no call is in flight — the code documents concurrent instances as undefined).
+  when no call is in flight — the code documents concurrent instances as undefined), `recreate`
+  (TorrentArchive.DeleteTorrent then CreateTorrent: everything starts over).
 
   Shared state as in the code: `pieces` (in-memory status vector, each under its own RWMutex),
   `file` (bytes of the download file; the same inode after the rename into the cache directory),
@@ -105,6 +106,7 @@ inductive Action where
   | spawn (pi : Int) (payload : Bytes)
   | step (tid : Nat) (k : Nat)
   | reopen
+  | recreate      -- TorrentArchive.DeleteTorrent followed by CreateTorrent (only while no call is in flight)
   deriving Repr, DecidableEq
 
 /-- pwrite: bytes `d` at offset `off` (a write past the end zero-fills the gap, as POSIX does) -/
@@ -222,6 +224,7 @@ def step (crc : Bytes → Nat) (s : State) : Action → State
   | .spawn pi payload => { s with threads := s.threads ++ [{ pi := pi, payload := payload }] }
   | .step tid k => stepThread crc s tid k
   | .reopen => if quiescent s then openTorrent s else s
+  | .recreate => if quiescent s then init s.mi else s   -- file, sidecars and the old calls' records are gone
 
 def run (crc : Bytes → Nat) (mi : MetaInfo) (sched : List Action) : State :=
   sched.foldl (step crc) (init mi)
